@@ -139,16 +139,6 @@ WREC_AXIOMS.append(L.Forall(
     "def.WREC.intro",
 ))
 
-Contract(
-    "inference.system_w_z3:any_subset_of_all",
-    params={"A": SSC, "B": SSC},
-    returns=TBool,
-    ensures=lambda c, r: [r.t == ASA(c._st.env["A"].t, c._st.env["B"].t)],  # (View.A is the solver accessor)
-    trusted=True,
-    note="ASSUMED (all/any over generators are outside Engine P): every member of B has a subset in A; checked "
-    "exhaustively on small universes by the bounded module `pure`",
-)
-
 
 def _w_inv_outer(s, j, pre):
     P, q, i = _Pz(s), s.query.t, s.partition_index.t
